@@ -308,6 +308,10 @@ func checkC01(w *World, r *Report) {
 		}
 	}
 
+	if w.Tier == "thorough" {
+		r.Rule("C01.closedworld", "P3 (VTA, whole program)", "thorough tier: through the SDK's own code as well (whole-program VTA call graph), no custom message, query, ValidateBasic or genesis-validation entry reaches bank MintCoins/BurnCoins/setSupply; the block routines do (positive controls)", 9)
+		closedWorldSupply(w, r, "C01.closedworld")
+	}
 	// ---------- C01.mint1 ----------
 	c01mint(w, r, mintSites)
 	// ---------- C01.burn1 ----------
